@@ -96,7 +96,7 @@ def try_replay(prop, res, target):
     return None
 
 
-def finish(prop, tier, seed, R, outs, t0, update_baseline=False, extra_items=None, skipped=0):
+def finish(prop, tier, seed, R, outs, t0, update_baseline=False, extra_items=None, skipped=0, bounded=None):
     findings = load_findings()
     known = {f["id"]: f for f in findings.get("findings", []) if f.get("property") == prop}
     base_path = os.path.join(BASELINE_DIR, "%s.json" % prop)
@@ -183,7 +183,19 @@ def finish(prop, tier, seed, R, outs, t0, update_baseline=False, extra_items=Non
                 prop, path, r["name"], "" if scen else " no-failing-input-found"))
             viol_records.append(rec)
         rc = 1
-    if undecided and not violations and base_proved and not update_baseline:
+    if bounded and bounded.get("exit") == 1:
+        os.makedirs(REPLAY_DIR, exist_ok=True)
+        path = os.path.join("out", "replay", "%s_b.json" % prop)
+        fl = bounded.get("failing") or {}
+        rec = dict(property=prop, obligation="(bounded stand-in) replay/%s.py" % prop, target="replay harness", status="failing-input",
+                   scenario=fl.get("scenario"), observed=fl.get("observed"), required=fl.get("required"), baseline_proved=None)
+        with open(os.path.join(HERE, path), "w") as fh:
+            json.dump(rec, fh, indent=1)
+        lines.append("VIOLATION property=%s replay=%s obligation=bounded-stand-in(replay/%s.py)" % (prop, path, prop))
+        viol_records.append(rec)
+        _REPLAY_CACHE[(prop, "*")] = fl
+        rc = 1
+    if undecided and not violations and not viol_records and base_proved and not update_baseline:
         # the proof no longer goes through (restructured code, missing invariant, solver limit) for a function that verified on
         # the unchanged tree: undecided, unless the property's replay harness finds a concrete failing input on the real code
         for u in undecided[:3]:
@@ -245,6 +257,7 @@ def finish(prop, tier, seed, R, outs, t0, update_baseline=False, extra_items=Non
             violations=[dict(obligation=v["obligation"], status=v["status"]) for v in viol_records],
             baseline_missing=missing[:20],
             not_run_after_early_stop=skipped,
+            bounded_checks=[bounded] if bounded else [],
             targets=targets_seen,
             evaluations=max(n_obl, 1), distinct_nontrivial=len(proved_keys | failed_keys),
             rule="one evaluation = one verification condition generated from the AST of /repo and sent to a solver; distinct = distinct stable obligation names",
